@@ -616,10 +616,16 @@ def compare(c, obs, rep):
         grew = sorted({b for t in obs['tasks'] for b in t['grew']})
         return None if grew == rep.get('ids') else f'xyzpy-grow grew {grew}, model {rep.get("ids")}'
     if 'err' in obs or 'err' in rep:
+        if ('err' in obs) == ('err' in rep) and 'gen_err' in rep and not rep['gen_err']:
+            return f'error mismatch: real {obs.get("err")} {obs.get("msg", "")}, the translated body does not raise'
         return None if ('err' in obs) == ('err' in rep) else \
             f'error mismatch: real {obs.get("err")} {obs.get("msg", "")} model {rep.get("err")}'
     if obs['text'] != rep['text']:
         return 'script text differs from the model rendering ' + _first_diff(obs['text'], rep['text'])
+    if 'text_gen' in rep and obs['text'] != rep['text_gen']:
+        # the text computed by the TRANSLATED body of gen_cluster_script (Gen.gcsOpts / Gen.gcsTail) — checks the translator
+        return 'script text differs from the rendering of the translated body ' + \
+            (_first_diff(obs['text'], rep['text_gen']) if rep['text_gen'] is not None else '(the translated body raised)')
     if obs['python'] != rep['python']:
         return 'embedded program differs from the model ' + _first_diff(obs['python'], rep['python'])
     if c['mode'] == 'array':
